@@ -8,7 +8,7 @@ from . import common, genops
 from .common import viol
 
 ID = "C15"
-RUNS = {"quick": 3000, "thorough": 40000}
+RUNS = {"quick": 3000, "thorough": 20000}
 REAL = common.REAL
 SIMULATED = common.SIMULATED
 ASSUMPTIONS = [
